@@ -175,6 +175,8 @@ def gen_tree(rng, malformed):
             g = rng.choice(DIRS) + "/" + f
         if g in files or any(o.startswith(g + "/") or g.startswith(o + "/") for o in files):
             continue
+        if any(c in ("", ".", "..") for c in g.split("/")):
+            continue
         files[g] = "D" if g.endswith(".so") else "L"
     return files
 
